@@ -77,8 +77,11 @@ M=[
   """            if self.deps.contains(&entry) {
                 log::trace!("New event: {entry:?}");
                 self.to_reload.insert(entry);
+            } else {
+                unknown.push(entry);
             }""",
-  """            log::trace!("New event: {entry:?}");
+  """            let _ = &unknown;
+            log::trace!("New event: {entry:?}");
             self.to_reload.insert(entry);"""),
  ("c07_map_drops_guard","C07","src/entry.rs",
   """        AssetReadGuard {
